@@ -62,6 +62,13 @@ def run(ctx: Any, prog: Program) -> None:
             continue
         if any(isinstance(c, ast.Call) and isinstance(c.func, ast.Attribute) and c.func.attr in ('discard', 'remove') for c in ast.walk(hfl_[0])):
             removing_helpers.add(hq_)
+    for _ in range(3):          # ... or hand the mapping on to one that does
+        for hq_, hfl_ in vm.all_funcs().items():
+            if '.' in hq_ or len(hfl_) != 1 or len(hfl_[0].args.args) < 3 or hq_ in removing_helpers:
+                continue
+            p0_ = hfl_[0].args.args[0].arg
+            if any(isinstance(c, ast.Call) and dotted(c.func) in removing_helpers and c.args and dotted(c.args[0]) == p0_ for c in ast.walk(hfl_[0])):
+                removing_helpers.add(hq_)
     ctx.rule('C07.I2', 'Entity._keys is mutated only by __init__/__setitem__/__delitem__', floor=4)
     ctx.rule('C07.I3', 'index maintenance: remove-old-first, guarded add, list and indexes updated together', floor=10)
     ctx.rule('C07.I4', 'worldspawn is registered, cannot be re-classed and its classname cannot be deleted', floor=4)
